@@ -47,6 +47,12 @@ structure Gen where
   poller : Bool := false
   deriving DecidableEq, Repr
 
+/-- `Generic::unregister` on success: the source forgets its token and its poller back-reference -/
+def Gen.unregistered (g : Gen) : Gen := { g with poller := false, token := none }
+
+/-- `Generic::process_events`: "If the token is invalid or not ours, skip processing." -/
+def Gen.gate (g : Gen) (key : Tok) : Bool := g.token == some key
+
 inductive Bs | none | synth (j : Nat) | err
   deriving DecidableEq, Repr
 
@@ -95,6 +101,7 @@ inductive COp
   | write (f n : Nat) | read (f : Nat) | advance (n : Nat)
   | setDeadline (k : Nat) (d : Int) | setInterest (k : Nat) (r w : Bool) (m : Mode) | dropDisp (k : Nat)
   | idle (i : Nat) | cancelIdle (i : Nat) | dropIdle (i : Nat)
+  | churn (n : Nat)                      -- n times: insert a source without fds, remove it again
   deriving DecidableEq, Repr
 
 structure Script where
@@ -190,6 +197,11 @@ def catchErr {α} (x : M α) : M (Except Err α) :=
     | .err e => pure (.error e)
     | .panic p => throw (.panic p))
 
+/-- explicit list iteration (instead of `for … in`, to keep induction over the model simple) -/
+def forEachM {α} : List α → (α → M Unit) → M Unit
+  | [], _ => pure ()
+  | a :: as, f => do f a; forEachM as f
+
 /-! ### association-list helpers -/
 
 def alookup {β} (l : List (Nat × β)) (k : Nat) : Option β := (l.find? (·.1 == k)).map (·.2)
@@ -265,7 +277,7 @@ def genUnregister (k j : Nat) : M Unit := do
   | none => pure ()
   | some g =>
     kDel g.fd
-    modGen k j fun g => { g with poller := false, token := none }
+    modGen k j Gen.unregistered
 
 /-! ### source-level registration, by kind -/
 
@@ -399,6 +411,16 @@ def dUnregister (k : Nat) (tok : Tok) : M Bool := do
 
 def inSlot (s : St) (k : Nat) : Bool := s.slots.any (·.occ == some k)
 
+/-- `Generic::drop` of every `Generic` a source owns: a still-registered fd leaves the poller (errors ignored) -/
+def dropGens (k : Kernel) : List Gen → Kernel
+  | [] => k
+  | g :: gs =>
+    if g.poller then
+      match epDel k g.fd with
+      | .ok k' => dropGens k' gs
+      | .error _ => dropGens k gs
+    else dropGens k gs
+
 /-- Drop `k` if nobody holds it any more: `Generic::drop` removes a still-registered fd from the
     poller; `Timer` has no `Drop`. -/
 def maybeDrop (k : Nat) : M Unit := do
@@ -409,11 +431,7 @@ def maybeDrop (k : Nat) : M Unit := do
     if src.dropped || src.owned || src.kept || inSlot s k || s.inflight == some k then pure ()
     else
       emit (.drop k)
-      for g in src.gens do
-        if g.poller then
-          match epDel (← get).k g.fd with
-          | .ok k' => modify fun s => { s with k := k' }
-          | .error _ => pure ()
+      modify fun s => { s with k := dropGens s.k src.gens }
       modSrc k fun s => { s with dropped := true, gens := s.gens.map fun g => { g with poller := false } }
 
 /-! ### handle operations (`LoopHandle`) and environment operations -/
@@ -477,6 +495,12 @@ def chanFd (k : Nat) : M Nat := do
   match ← getGen? k 0 with
   | some g => return g.fd
   | none => return 0
+
+/-- `n` insert/remove cycles of a source that registers nothing: the first vacant slot is handed out
+    (generation bumped, or a new slot pushed) and vacated again -/
+def churnSlots : Nat → Slots → Slots
+  | 0, ss => ss
+  | n + 1, ss => churnSlots n (vacantEntry bV ss).1
 
 def isNew (o : COp) : Option Nat :=
   match o with
@@ -582,6 +606,7 @@ def execC' (o : COp) : M Unit := do
       modify fun s => { s with cancelled := inst :: s.cancelled }
     | none => pure ()
   | .dropIdle i => modify fun s => { s with idleHandles := s.idleHandles.filter (·.1 != i) }
+  | .churn n => modify fun s => { s with slots := churnSlots n s.slots }
 
 /-- a source id names one object for the whole case -/
 def execC (o : COp) : M Unit := do
@@ -605,7 +630,7 @@ def runCb (k : Nat) (p : Payload) : M Ret := do
   let n := ((alookup (← get).invs k).getD 0) + 1
   modify fun s => { s with invs := aset s.invs k n }
   let sc := scriptFor (← get) k n
-  for o in sc.ops do execC o
+  forEachM sc.ops execC
   emit (.cbret k sc.ret)
   return sc.ret
 
@@ -618,10 +643,20 @@ def retPA : Ret → M PA
 
 /-! ### `process_events`, by kind -/
 
+/-- `Timer::process_events`: does this event fire the callback?  It needs a registration with this
+    token, a deadline, and must not be stale (the current arming still waiting in the wheel). -/
+def timerFires (s : Src) (key : Tok) (w : Wheel) : Option (Tok × Nat × Int) :=
+  match s.treg, s.deadline with
+  | some (t, c), some d =>
+    if t != key then none
+    else if w.heap.any (·.counter == c) then none
+    else some (t, c, d)
+  | _, _ => none
+
 /-- `Generic::process_events` gate: the event's token must be the one the source registered with -/
 def genGate (k j : Nat) (ev : Event) : M Bool := do
   match ← getGen? k j with
-  | some g => return g.token == some ev.key
+  | some g => return g.gate ev.key
   | none => return false
 
 /-- `PingSource::process_events` around a callback body; the body's result is returned when it ran -/
@@ -679,12 +714,8 @@ def processEventsInner (k : Nat) (ev : Event) : M PA := do
         kWrite (← chanFd k) Verif.Generated.Consts.INCREMENT_PING
         pure .Continue
     | .timer =>
-      match s.treg, s.deadline with
-      | some (t, c), some d =>
-        if t != ev.key then pure .Continue
-        -- an expiry collected before the timer was re-armed is stale: the current arming is still in the wheel
-        else if (← get).wheel.heap.any (·.counter == c) then pure .Continue
-        else do
+      match timerFires s ev.key (← get).wheel with
+      | some (t, c, d) => do
           let r ← runCb k (.deadline d)
           match r with
           | .toInstant i =>
@@ -695,7 +726,7 @@ def processEventsInner (k : Nat) (ev : Event) : M PA := do
             modSrc k fun s => { s with deadline := none }
             pure .Remove
           | _ => pure .Remove
-      | _, _ => pure .Continue
+      | none => pure .Continue
     | .gen => do
       if ← genGate k 0 ev then
         let r ← runCb k (.ready ev.r ev.w)
@@ -742,6 +773,9 @@ def beforeHandle (evs : List Event) (tok : Tok) : M Unit := do
   | none => throwPanic .unreachable
   | some k => emit (.bhe k (evs.filter fun e => sameSource e.key tok))
 
+/-- "if the returned PostAction is Continue, it may be overwritten by a user-specified pending action" -/
+def resolve (ret pending : PA) : PA := if ret == .Continue then pending else ret
+
 /-- one iteration of the event loop of `dispatch_events`; returns the error of this event, if any
     (the batch goes on, the first error is reported at the end) -/
 def processOne (ev : Event) : M (Option Err) := do
@@ -758,7 +792,7 @@ def processOne (ev : Event) : M (Option Err) := do
       match r with
       | .error e => throwErr e
       | .ok ret0 =>
-        let ret := if ret0 == .Continue then p else ret0
+        let ret := resolve ret0 p
         match ret with
         | .Reregister => do let _ ← dReregister k reg
         | .Disable => do let _ ← dUnregister k reg
@@ -777,8 +811,15 @@ def processOne (ev : Event) : M (Option Err) := do
     | .ok _ => pure none
     | .error e => pure (some e)
 
+/-- the event loop of `dispatch_events`: the whole batch is processed, the first error is kept -/
+def batchLoop : List Event → Option Err → M (Option Err)
+  | [], first => pure first
+  | ev :: rest, first => do
+    let e ← processOne ev
+    batchLoop rest (if first.isNone then e else first)
+
 def dispatchEvents : M Unit := do
-  for tok in (← get).life do beforeSleep tok
+  forEachM (← get).life beforeSleep
   -- `Poll::poll`: the poller's report, then every expired timer in pop order
   let (evs, k') := epWait (← get).k
   modify fun s => { s with k := k' }
@@ -786,28 +827,27 @@ def dispatchEvents : M Unit := do
   let (exp, w') := popExpired s.wheel s.now s.wheel.heap.length
   modify fun s => { s with wheel := w' }
   let polled := evs ++ exp.map fun e => { key := e.tok, r := true, w := false }
-  for tok in (← get).life do beforeHandle polled tok
+  forEachM (← get).life (beforeHandle polled)
   let batch := (← get).synth ++ polled
   modify fun s => { s with synth := [] }
-  let mut first : Option Err := none
-  for ev in batch do
-    let e ← processOne ev
-    if first.isNone then first := e
-  match first with
+  match ← batchLoop batch none with
   | some e => throwErr e
   | none => pure ()
 
+def runIdle (p : Nat × Nat) : M Unit := do
+  if !(← get).cancelled.contains p.2 then
+    emit (.idle p.1)
+    modify fun s => { s with runningIdle := some p.2 }
+    let sc := (alookup (← get).idleScripts p.1).getD {}
+    forEachM sc.ops execC
+    modify fun s => { s with runningIdle := none }
+    emit (.idleret p.1)
+
+/-- `dispatch_idles`: the queue is taken, then every callback that was not cancelled runs once -/
 def dispatchIdles : M Unit := do
   let q := (← get).idles
   modify fun s => { s with idles := [] }
-  for (i, inst) in q do
-    if !(← get).cancelled.contains inst then
-      emit (.idle i)
-      modify fun s => { s with runningIdle := some inst }
-      let sc := (alookup (← get).idleScripts i).getD {}
-      for o in sc.ops do execC o
-      modify fun s => { s with runningIdle := none }
-      emit (.idleret i)
+  forEachM q runIdle
 
 def dispatch : M Unit := do
   emit .dispatchBegin
